@@ -5,7 +5,14 @@ from pyparsing import *
 
 def _grammar():
   from pyparsing import pyparsing_common
-  number = pyparsing_common.number
+  # Integers and reals as pyparsing_common.number (int / float values), except that a number must end where its token ends:
+  # '1000.0.3' or '32.0.' are typing errors, not two numbers written without a blank between them.
+  def convert_number(tokens):
+    try:
+      return int(tokens[0])
+    except ValueError:
+      return float(tokens[0])
+  number = Regex(r"[+-]?(?:\d+\.\d*|\.\d+|\d+)(?:[eE][+-]?\d+)?(?![\w.])").setName("number").setParseAction(convert_number)
   identifier = Combine(pyparsing_common.identifier+ZeroOrMore(Literal(".")+pyparsing_common.identifier))
 
   # multi_range
